@@ -1,5 +1,6 @@
 ------------------------------ MODULE ReaderObs ------------------------------
 (* lines: [t |-> "files", files, names, use (Reader.tla: where the context variables are consulted), out, endnr (text of NR printed by the end block), exit]                         *)
+(*        [t |-> "dslchain", s, out, piped, exit]: put/filter stages, each with its own functions, variables and begin/end blocks   *)
 (*        [t |-> "chain", cs, s, out (the then-chain's output), piped (the output of the same verbs connected by pipes), exit] *)
 EXTENDS Reader, Json
 CONSTANT ObsFile
@@ -20,6 +21,8 @@ Why(o) ==
   ELSE IF o.t = "files" THEN
        (IF o.out # Used(FilesOf(o), o.names, o.use.mode, o.use.sel) THEN "records or NR/FNR/FILENAME/FILENUM/NF wrong"
         ELSE IF o.endnr # ToString(FinalNR(o.files)) THEN "end block does not see the final NR" ELSE "ok")
+  ELSE IF o.t = "dslchain" THEN        \* put/filter verbs with programs of their own: the law itself, then = pipe
+       (IF o.piped # o.out THEN "then-chain differs from the piped verbs" ELSE "ok")
   ELSE IF ~ChainOK(o.cs) THEN "ok"      \* outside the composable space (sampled by the harness): not judged
   ELSE (IF o.out # ChainExpected(o.cs, o.s) THEN "then-chain differs from the composition of its verbs"
         ELSE IF o.piped # o.out THEN "then-chain differs from the piped verbs" ELSE "ok")
